@@ -23,10 +23,39 @@ def split(lines):
     return out
 
 
+MUTANTS = [
+    ('FlowIndRecv', 'batching threshold off by one', 'IF u < MinRefresh /\\ u < avail THEN', 'IF u <= MinRefresh /\\ u < avail THEN'),
+    ('FlowIndRecv', 'unread bytes of a closed stream not refunded', 'LET rc == Add(cAvail, cUnsent, buf[s]) IN', 'LET rc == Add(cAvail, cUnsent, 0) IN'),
+    ('FlowIndSend', 'overflow test off by one', 'IF sum > MaxWin THEN "overflow"', 'IF sum > MaxWin + 1 THEN "overflow"'),
+    ('FlowIndSend', 'DATA not limited by the connection window', 'Min2(Min2(oSt[s], oConn), MaxFrame)', 'Min2(oSt[s], MaxFrame)'),
+]
+
+
+def apalache_mutants(ctx):
+    import shutil
+    for i, (mod, what, old, new) in enumerate(MUTANTS):
+        d = os.path.join(ctx.scratch, 'apamut%d' % i)
+        os.makedirs(d)
+        src = open(os.path.join(vf.VERIF, 'spec', 'Flow.tla')).read()
+        if src.count(old) != 1:
+            raise vf.Inconclusive('model mutant %r does not apply to Flow.tla' % what)
+        open(os.path.join(d, 'Flow.tla'), 'w').write(src.replace(old, new))
+        shutil.copy(os.path.join(vf.VERIF, 'spec', mod + '.tla'), d)
+        r = ctx.apalache_induction(mod, label='broken model (%s) must be rejected' % what, expect_ok=False, subdir=d)
+        if r['ok']:
+            raise vf.Inconclusive('Apalache accepts the broken model %r: the inductive invariant is vacuous' % what)
+
+
 def run(ctx):
     t = ctx.tier
     ctx.tlc('Flow', 'MC_C12_recv.cfg', label='receive side: conservation, batching bound, ledger agreement', timeout=1800)
     ctx.tlc('Flow', 'MC_C12_send_%s.cfg' % t, label='send side: SendSafe, overflow errors', timeout=2400)
+    # unbounded in the numbers: Apalache discharges the same invariants as an inductive invariant for arbitrary window sizes, batching
+    # threshold, increments, SETTINGS values and frame sizes (two streams), and rejects three deliberately broken models (non-vacuity)
+    ctx.apalache_induction('FlowIndRecv', label='receive side, inductive for all window sizes / thresholds / frame sizes (Apalache)')
+    ctx.apalache_induction('FlowIndSend', label='send side, inductive for all maximal windows / increments / SETTINGS values (Apalache)')
+    if t == 'thorough':
+        apalache_mutants(ctx)
     drv = ctx.build_driver('c12driver')
     trace = os.path.join(ctx.scratch, 'c12.ndjson')
     rep = os.path.join(ctx.scratch, 'c12_report.json')
